@@ -36,6 +36,10 @@ func (e *Engine) runStatic(name, prop string) ([]staticResult, []string) {
 		return e.assignFirst(prop)
 	case "alloc-sites":
 		return e.allocSites(prop)
+	case "pure-funcs":
+		return e.pureFuncs(prop)
+	case "todo-order":
+		return e.todoOrder(prop)
 	}
 	return nil, []string{"unknown static check " + name}
 }
@@ -228,6 +232,14 @@ func (e *Engine) frameViolations(fn *ssa.Function) []frameViolation {
 					pt := a.X.Type().Underlying().(*types.Pointer)
 					st := pt.Elem().Underlying().(*types.Struct)
 					fname := st.Field(a.Field).Name()
+					if fname == "Typ" || fname == "Successors" {
+						// a lazily filled cache: written only when it is empty (so a filled cache is never
+						// rewritten: a second printer or observer performs no write here)
+						if !guardedByNil(x, a) {
+							add(x.Pos(), "writes the cache field %s of a shared %s without the guard %s == nil", fname, pt.Elem(), fname)
+						}
+						continue
+					}
 					if cacheFields[fname] {
 						continue
 					}
@@ -836,4 +848,410 @@ func (e *Engine) allocSites(prop string) ([]staticResult, []string) {
 		res = append(res, r)
 	}
 	return res, errs
+}
+
+
+// sameRoot: two SSA values denote the same object: identical, or loads of one
+// local cell that is assigned exactly once (a parameter or a receiver).
+func sameRoot(a, b ssa.Value) bool {
+	if a == b {
+		return true
+	}
+	la, ok1 := a.(*ssa.UnOp)
+	lb, ok2 := b.(*ssa.UnOp)
+	if !ok1 || !ok2 || la.Op != token.MUL || lb.Op != token.MUL || la.X != lb.X {
+		return false
+	}
+	al, ok := la.X.(*ssa.Alloc)
+	if !ok || al.Referrers() == nil {
+		return false
+	}
+	n := 0
+	for _, r := range *al.Referrers() {
+		if st, ok := r.(*ssa.Store); ok && st.Addr == al {
+			n++
+		}
+	}
+	return n == 1
+}
+
+// guardedByNil: the store to field fa is executed only on a path on which the same
+// field of the same object was just found to be nil (if x.F == nil { x.F = ... }, or
+// if x.F != nil { return x.F }; x.F = ...).
+func guardedByNil(st *ssa.Store, fa *ssa.FieldAddr) bool {
+	isNil := func(v ssa.Value) bool {
+		c, ok := v.(*ssa.Const)
+		return ok && c.Value == nil
+	}
+	isField := func(v ssa.Value) bool {
+		ld, ok := v.(*ssa.UnOp)
+		if !ok || ld.Op != token.MUL {
+			return false
+		}
+		f2, ok := ld.X.(*ssa.FieldAddr)
+		return ok && f2.Field == fa.Field && sameRoot(f2.X, fa.X)
+	}
+	b := st.Block()
+	for d := b; d != nil; d = d.Idom() {
+		if len(d.Instrs) == 0 {
+			continue
+		}
+		iff, ok := d.Instrs[len(d.Instrs)-1].(*ssa.If)
+		if !ok {
+			continue
+		}
+		cmp, ok := iff.Cond.(*ssa.BinOp)
+		if !ok || (cmp.Op != token.EQL && cmp.Op != token.NEQ) {
+			continue
+		}
+		if !((isField(cmp.X) && isNil(cmp.Y)) || (isField(cmp.Y) && isNil(cmp.X))) {
+			continue
+		}
+		nilEdge := d.Succs[0]
+		if cmp.Op == token.NEQ {
+			nilEdge = d.Succs[1]
+		}
+		if len(nilEdge.Preds) == 1 && nilEdge.Dominates(b) {
+			// no other store to the field between the test and this store is required: a second
+			// store on the same path still happens only when the cache was empty at the test
+			return true
+		}
+	}
+	return false
+}
+
+// pureFuncs: every /repo function whose contract says `pure` (its calls are modelled as
+// an uninterpreted function of the arguments) really is one: it and every /repo function
+// it reaches write only memory they allocate, read no shared mutable memory (only their
+// own locals, memory they allocated, constant strings and the immutable memory of pure
+// packages), call only such functions, pure packages and side-effect-free library
+// functions, and return plain values (no references whose identity could differ per call).
+func (e *Engine) pureFuncs(prop string) ([]staticResult, []string) {
+	var res []staticResult
+	var fns []*ssa.Function
+	for fn, con := range e.cons {
+		if con.Pure && hasProp(con.Props, prop) {
+			fns = append(fns, fn)
+		}
+	}
+	sort.Slice(fns, func(i, j int) bool { return fns[i].String() < fns[j].String() })
+	libOK := func(full string) bool {
+		for _, p := range []string{"strings.", "strconv.", "fmt.Sprintf", "fmt.Errorf", "fmt.Sprint", "errors.", "github.com/pkg/errors.", "unicode/utf8.", "bytes.", "(*strings.Builder).", "math."} {
+			if strings.HasPrefix(full, p) {
+				return true
+			}
+		}
+		return false
+	}
+	var plain func(t types.Type, d int) bool
+	plain = func(t types.Type, d int) bool {
+		if d > 6 {
+			return false
+		}
+		switch u := t.Underlying().(type) {
+		case *types.Basic:
+			return u.Kind() != types.UnsafePointer
+		case *types.Struct:
+			for i := 0; i < u.NumFields(); i++ {
+				if !plain(u.Field(i).Type(), d+1) {
+					return false
+				}
+			}
+			return true
+		case *types.Array:
+			return plain(u.Elem(), d+1)
+		}
+		return false
+	}
+	for _, root := range fns {
+		name := strings.Replace(root.String(), modPath+"/", "", -1)
+		r := staticResult{Name: "pure:" + name, Func: root.String(), Kind: "pure", Pos: posOf(e, root.Pos()), Status: "unsat",
+			Detail: name + " and the /repo functions it reaches write only memory they allocate, read no shared mutable memory and return plain values"}
+		var problems []string
+		sig := root.Signature
+		for i := 0; i < sig.Results().Len(); i++ {
+			if !plain(sig.Results().At(i).Type(), 0) {
+				problems = append(problems, fmt.Sprintf("result %d of type %s is not a plain value", i, sig.Results().At(i).Type()))
+			}
+		}
+		seen := map[*ssa.Function]bool{root: true}
+		work := []*ssa.Function{root}
+		for len(work) > 0 {
+			fn := work[0]
+			work = work[1:]
+			if fn.Blocks == nil {
+				problems = append(problems, fn.String()+" has no body")
+				continue
+			}
+			for _, v := range e.frameViolations(fn) {
+				problems = append(problems, fmt.Sprintf("%s: %s", posOf(e, v.pos), v.what))
+			}
+			for _, b := range fn.Blocks {
+				for _, ins := range b.Instrs {
+					switch x := ins.(type) {
+					case *ssa.UnOp:
+						if x.Op != token.MUL {
+							continue
+						}
+						if _, ok := x.X.(*ssa.Alloc); ok {
+							continue
+						}
+						if freshOrigin(x.X, map[ssa.Value]bool{}) {
+							continue
+						}
+						// memory of a pure package
+						if fa, ok := x.X.(*ssa.FieldAddr); ok {
+							if n, ok := fa.X.Type().Underlying().(*types.Pointer).Elem().(*types.Named); ok && e.isPurePkg(n.Obj().Pkg()) {
+								continue
+							}
+						}
+						if pt, ok := x.X.Type().Underlying().(*types.Pointer); ok {
+							if n, ok := pt.Elem().(*types.Named); ok && e.isPurePkg(n.Obj().Pkg()) {
+								continue
+							}
+						}
+						if g, ok := x.X.(*ssa.Global); ok && g.Pkg != nil && strings.HasPrefix(g.Name(), "init$") {
+							continue
+						}
+						problems = append(problems, fmt.Sprintf("%s: reads shared memory through %s", posOf(e, x.Pos()), x.X.Type()))
+					case *ssa.Lookup:
+						if _, isMap := x.X.Type().Underlying().(*types.Map); isMap && !freshOrigin(x.X, map[ssa.Value]bool{}) {
+							problems = append(problems, fmt.Sprintf("%s: reads a shared map", posOf(e, x.Pos())))
+						}
+					case ssa.CallInstruction:
+						cc := x.Common()
+						if cc.IsInvoke() {
+							if n, ok := cc.Value.Type().(*types.Named); ok && (e.isPurePkg(n.Obj().Pkg()) || n.Obj().Name() == "error") {
+								continue
+							}
+							problems = append(problems, fmt.Sprintf("%s: dynamic call %s", posOf(e, x.Pos()), cc.Method.Name()))
+							continue
+						}
+						switch callee := cc.Value.(type) {
+						case *ssa.Builtin:
+						case *ssa.Function:
+							full := callee.String()
+							if callee.Pkg != nil && e.isPurePkg(callee.Pkg.Pkg) {
+								continue
+							}
+							if (callee.Pkg == nil || !inRepoPkg(callee.Pkg.Pkg)) && !fnInRepo(callee) {
+								if !libOK(full) && !(callee.Signature.Recv() != nil && e.pureRecv(callee)) {
+									problems = append(problems, fmt.Sprintf("%s: calls %s", posOf(e, x.Pos()), full))
+								}
+								continue
+							}
+							if !seen[callee] {
+								seen[callee] = true
+								work = append(work, callee)
+							}
+						case *ssa.MakeClosure:
+							if f, ok := callee.Fn.(*ssa.Function); ok && !seen[f] {
+								seen[f] = true
+								work = append(work, f)
+							}
+						default:
+							problems = append(problems, fmt.Sprintf("%s: call through a function value", posOf(e, x.Pos())))
+						}
+					}
+				}
+			}
+		}
+		if len(problems) > 6 {
+			problems = append(problems[:6], fmt.Sprintf("... %d more", len(problems)-6))
+		}
+		if len(problems) > 0 {
+			r.Status = "fail"
+			r.Detail = strings.Join(problems, "; ")
+		}
+		res = append(res, r)
+	}
+	return res, nil
+}
+
+// pureRecv: method of a type of a pure package (promoted through wrappers).
+func (e *Engine) pureRecv(fn *ssa.Function) bool {
+	t := fn.Signature.Recv().Type()
+	if pt, ok := t.(*types.Pointer); ok {
+		t = pt.Elem()
+	}
+	n, ok := t.(*types.Named)
+	return ok && e.isPurePkg(n.Obj().Pkg())
+}
+
+// todoOrder (C04): no placeholder block survives translation. (1) generator.todo is written
+// only by irBlockAddressConst (whose contract appends the new constant) and newGenerator;
+// (2) in translate, every call that can reach irBlockAddressConst happens before the
+// fix-up loop over gen.todo (its block dominates the loop), and the loop calls
+// fixBlockAddressConst on every element; nothing that can create a blockaddress runs later.
+func (e *Engine) todoOrder(prop string) ([]staticResult, []string) {
+	pkg := e.pkgs[modPath+"/asm"]
+	if pkg == nil {
+		return nil, []string{"todo-order: package asm not loaded"}
+	}
+	tr := pkg.Func("translate")
+	creator, err := e.lookupFunc(pkg, "(*generator).irBlockAddressConst")
+	if tr == nil || err != nil {
+		return nil, []string{"todo-order: contract-stale: translate / irBlockAddressConst not found"}
+	}
+	var res []staticResult
+	// (1) writers of generator.todo
+	r1 := staticResult{Name: "todo-writers", Func: pkg.Pkg.Path(), Kind: "todo-order", Status: "unsat",
+		Detail: "generator.todo is assigned only in irBlockAddressConst (append of the new constant) and in newGenerator"}
+	var p1 []string
+	var all []*ssa.Function
+	seenF := map[*ssa.Function]bool{}
+	var addF func(f *ssa.Function)
+	addF = func(f *ssa.Function) {
+		if f == nil || seenF[f] || f.Blocks == nil {
+			return
+		}
+		seenF[f] = true
+		all = append(all, f)
+		for _, a := range f.AnonFuncs {
+			addF(a)
+		}
+	}
+	for _, m := range pkg.Members {
+		switch x := m.(type) {
+		case *ssa.Function:
+			addF(x)
+		case *ssa.Type:
+			for _, T := range []types.Type{x.Type(), types.NewPointer(x.Type())} {
+				ms := e.prog.MethodSets.MethodSet(T)
+				for i := 0; i < ms.Len(); i++ {
+					if f := e.prog.MethodValue(ms.At(i)); f != nil && f.Pkg == pkg {
+						addF(f)
+					}
+				}
+			}
+		}
+	}
+	nw := 0
+	for _, f := range all {
+		for _, b := range f.Blocks {
+			for _, ins := range b.Instrs {
+				st, ok := ins.(*ssa.Store)
+				if !ok {
+					continue
+				}
+				fa, ok := st.Addr.(*ssa.FieldAddr)
+				if !ok {
+					continue
+				}
+				n, ok := fa.X.Type().Underlying().(*types.Pointer).Elem().(*types.Named)
+				if !ok || n.Obj().Name() != "generator" {
+					continue
+				}
+				if n.Underlying().(*types.Struct).Field(fa.Field).Name() != "todo" {
+					continue
+				}
+				nw++
+				if f != creator && f.Name() != "newGenerator" {
+					p1 = append(p1, fmt.Sprintf("%s: generator.todo assigned in %s", posOf(e, st.Pos()), f.Name()))
+				}
+			}
+		}
+	}
+	if nw == 0 {
+		p1 = append(p1, "no assignment of generator.todo found (contract-stale)")
+	}
+	if len(p1) > 0 {
+		r1.Status, r1.Detail = "fail", strings.Join(p1, "; ")
+	}
+	res = append(res, r1)
+	// (2) order in translate
+	r2 := staticResult{Name: "todo-order:translate", Func: tr.String(), Kind: "todo-order", Pos: posOf(e, tr.Pos()), Status: "unsat",
+		Detail: "in translate, every call that can reach irBlockAddressConst dominates the fix-up loop over gen.todo, which applies fixBlockAddressConst to every element"}
+	var p2 []string
+	// functions that can reach the creator
+	reach := map[*ssa.Function]bool{creator: true}
+	for changed := true; changed; {
+		changed = false
+		for _, f := range all {
+			if reach[f] {
+				continue
+			}
+			for _, c := range e.callees(f) {
+				if reach[c] {
+					reach[f] = true
+					changed = true
+					break
+				}
+			}
+		}
+	}
+	// the fix-up loop: the block calling fixBlockAddressConst, its loop header
+	var fixCall *ssa.Call
+	for _, b := range tr.Blocks {
+		for _, ins := range b.Instrs {
+			if c, ok := ins.(*ssa.Call); ok {
+				if f, ok := c.Call.Value.(*ssa.Function); ok && f.Name() == "fixBlockAddressConst" {
+					fixCall = c
+				}
+			}
+		}
+	}
+	if fixCall == nil {
+		p2 = append(p2, "translate does not call fixBlockAddressConst")
+	} else {
+		// loop header: the nearest dominator of the call's block that has a back edge
+		var head *ssa.BasicBlock
+		for d := fixCall.Block(); d != nil && head == nil; d = d.Idom() {
+			for _, p := range d.Preds {
+				if d.Dominates(p) {
+					head = d
+				}
+			}
+		}
+		if head == nil {
+			p2 = append(p2, "fixBlockAddressConst is not called in a loop")
+		} else {
+			// the loop ranges over gen.todo: a load of field todo feeds the range
+			ranged := false
+			for d := head.Idom(); d != nil && !ranged; d = d.Idom() {
+				for _, ins := range d.Instrs {
+					if fa, ok := ins.(*ssa.FieldAddr); ok {
+						if n, ok := fa.X.Type().Underlying().(*types.Pointer).Elem().(*types.Named); ok && n.Obj().Name() == "generator" &&
+							n.Underlying().(*types.Struct).Field(fa.Field).Name() == "todo" {
+							ranged = true
+						}
+					}
+				}
+				if len(d.Succs) > 0 && d != head.Idom() {
+					break
+				}
+			}
+			if !ranged {
+				p2 = append(p2, "the fix-up loop does not range over gen.todo")
+			}
+			// the loop must not be left early except on error: the only exits are the range end and the error return
+			for _, b := range tr.Blocks {
+				for _, ins := range b.Instrs {
+					ci, ok := ins.(ssa.CallInstruction)
+					if !ok {
+						continue
+					}
+					var cs []*ssa.Function
+					if f, ok := ci.Common().Value.(*ssa.Function); ok {
+						cs = []*ssa.Function{f}
+					} else if ci.Common().IsInvoke() {
+						cs = e.dynamicTargets(ci.Common())
+					}
+					for _, c := range cs {
+						if !reach[c] {
+							continue
+						}
+						if !(b.Dominates(head) && b != head) {
+							p2 = append(p2, fmt.Sprintf("%s: %s can create a blockaddress constant but does not precede the fix-up loop", posOf(e, ins.Pos()), c.Name()))
+						}
+					}
+				}
+			}
+		}
+	}
+	if len(p2) > 0 {
+		r2.Status, r2.Detail = "fail", strings.Join(p2, "; ")
+	}
+	res = append(res, r2)
+	return res, nil
 }
